@@ -270,9 +270,9 @@ XOf(st) == [i |-> IF "i" \in DOMAIN st THEN st.i ELSE 0,
             cut |-> IF "cut" \in DOMAIN st THEN st.cut ELSE 0,
             at |-> IF "at" \in DOMAIN st THEN st.at ELSE 0,
             mid |-> IF "mid" \in DOMAIN st THEN st.mid ELSE << >>,
-            k |-> st.k]
+            k |-> st.k, pick |-> "c1"]
 
-RECURSIVE Run(_, _, _, _, _, _), Mids(_, _), Step(_, _, _)
+RECURSIVE Run(_, _, _, _, _, _), Mids(_, _, _), Step(_, _, _)
 
 \* seenC / seenT: the records as this reconcile believes them to be (as read, then as written by itself);
 \* a write succeeds iff the stored record still is that record (the version check).
@@ -286,7 +286,7 @@ Run(W, seenC, seenT, n0, effs, X) ==
              ELSE
              LET n == n0 + 1
              IN  IF X.cut = n THEN [W EXCEPT !.q = WakeAll(W)]
-                 ELSE LET W1 == IF X.at = n THEN Mids(W, X.mid) ELSE W
+                 ELSE LET W1 == IF X.at = n THEN Mids(W, X.mid, X.pick) ELSE W
                       IN  CASE e.k = "cfg" ->
                                  IF W1.cfg = seenC
                                  THEN LET c2 == e.f @@ W1.cfg IN Run([W1 EXCEPT !.cfg = c2, !.q = WakeCfg(W1.q, c2)], c2, seenT, n, Tail(effs), X)
@@ -304,12 +304,13 @@ Run(W, seenC, seenT, n0, effs, X) ==
                                      ELSE IF r.code = Denied THEN r.W
                                      ELSE Run(r.W, seenC, seenT, n, e.bad, X)
 
-Mids(W, ms) == IF ms = << >> THEN W ELSE Mids(Step(W, Head(ms), "c1"), Tail(ms))
+\* the election an interleaved mastership reconcile makes is the code's own random choice too: X.pick
+Mids(W, ms, pick) == IF ms = << >> THEN W ELSE Mids(Step(W, Head(ms), pick), Tail(ms), pick)
 
 \* one step of a behaviour; pick: the relation the mastership election picks (its own random choice)
 Step(W, st, pick) ==
     LET W0 == [W EXCEPT !.q = Dequeue(st, W.q)]
-        X == XOf(st)
+        X == [XOf(st) EXCEPT !.pick = pick]
     IN  CASE st.k = "rtx" -> IF HasTx(W, st.i) THEN Run(W0, W.cfg, W.txs[st.i], 0, PlanTx(W, st.i), X) ELSE W0
           [] st.k = "rcfg" -> Run(W0, W.cfg, Nil, 0, PlanCfg(W), X)
           [] st.k = "rmast" -> Run(W0, W.cfg, Nil, 0, PlanMast(W, IF pick \in W.conns THEN pick ELSE CHOOSE c \in W.conns : TRUE), X)
